@@ -157,22 +157,31 @@ def units(tier, seed=0):
         for f in flags:
             txt, L = vec.c_unit(spec, f)
             cxx = vec.cxx_tu(spec, f)
+            tracked = any(q.elem in 'tm' for q in L.params)
+            if tracked:
+                txt, L = vec.c_unit(spec, f, maxc=2)
             for name, h, key, props, repl, extra in vec.VEC_UNITS_COMMON + (vec.VEC_UNITS_VAR if L.is_varying() else vec.VEC_UNITS_FIXED):
+                if tracked:
+                    if name not in ('pop_back', 'clear', 'erase', 'dtor', 'emplace_back', 'subscript', 'copy_assign', 'move_assign'):
+                        continue
+                    props = sorted(set(props + ['C06']))
+                    repl = [r for r in repl if r not in ('EMPLACE',)]
+                    extra = dict(extra); extra['unwind'] = 4; extra['kind'] = 'bounded(capacity 2, span items <= 2, loops unwound)'
                 u = dict(id='vec.%s.F%d.%s' % (L.tag, f, name), tu='vec_%s_F%d' % (L.tag, f), gen=cxx, template_text=txt, vars={}, entry=h,
                          enforce='@F{%s}' % vec.RXV[key], replace=['@F{%s}' % vec.REPL[r] for r in repl], props=props, layer='vector.hpp/elementLocator.hpp',
                          kind=extra.get('kind', 'proof'), config='vector: %s, allocator traits F=%d' % (spec, f))
                 if extra.get('tier') == 'thorough' and tier != 'thorough': continue
                 if extra.get('timeout'): u['timeout'] = extra['timeout']
                 if extra.get('unwind'): u['unwind'] = extra['unwind']
-                u['cdefs'] = ['VF_BLOCK_K=1']
+                u['cdefs'] = ['VF_BLOCK_K=1'] + (['VF_TRACKED=1'] if tracked else []) + (['VF_TRIVIAL_DTOR=1'] if tracked and all(q.elem != 't' for q in L.params) else [])
                 if extra.get('cdefs_nvar'): u['cdefs'].append('VF_WINDOWS=%d' % min(4, 2 * L.nvar))
                 u['cdefs'] += extra.get('cdefs', [])
                 if key == 'transform':
                     us.append(u)
                     continue
-                shapes = [(c, b, c, b) for c, b in VEC_SHAPES[tier]]
+                shapes = [(c, b, c, b) for c, b in VEC_SHAPES[tier]] if not tracked else [(2, 48, 2, 48)]
                 if extra.get('two'):
-                    shapes = VEC_SHAPES2[tier]
+                    shapes = VEC_SHAPES2[tier] if not tracked else [(2, 48, 2, 48), (1, 16, 2, 48)]
                 for capk, unitsk, capo, unitso in shapes:
                     uu = dict(u); uu['id'] = u['id'] + '.cap%d' % capk + ('o%d' % capo if extra.get('two') else '')
                     uu['cdefs'] = u['cdefs'] + ['CAPK=%d' % capk, 'UNITSK=%d' % max(0, unitsk // L.sa), 'CAPK_O=%d' % capo, 'UNITSK_O=%d' % max(0, unitso // L.sa)]
@@ -193,5 +202,5 @@ def _memcpy_compatible(T, U):
 
 def vec_catalogue(tier):
     if tier == 'quick':
-        return [('c4 v4', [0]), ('f4', [0]), ('c8a8 v2 p4a8', [3, 4]), ('f2a4 p1', [1])]
+        return [('c4 v4', [0]), ('f4', [0]), ('c8a8 v2 p4a8', [3, 4]), ('f2a4 p1', [1]), ('f4t', [0]), ('c4 f4t', [0]), ('f4m', [0])]
     return [('c4 v4', [0, 5]), ('f4', [0, 10]), ('c8a8 v2 p4a8', [3]), ('p4 p8a8', [0]), ('f3 f5a4 p2a2', [6]), ('c4 v4 c4 v4', [0]), ('c2 v3 c1 v5a4 p1', [0]), ('f4a16 c4 v4a8', [9])]
